@@ -88,6 +88,8 @@ def type_members(l12=(), names=None):
             sl.sub("L15:const-auto->kind_t", r"const auto k = get_kind\(\);", "const kind_t k = get_kind();", required=True)
         if name in ("type_t::get_sub()", "type_t::get_sub(i)", "type_t::get_array_size", "type_t::get_record_size", "type_t::strip"):
             sl.sub("L15:const-auto->kind_t", r"const auto k = get_kind\(\);", "const kind_t k = get_kind();", required=True)
+        sl.sub("lower:make_shared->new", r"std::make_shared<type_data>\(", "new type_data(")
+        sl.sub("L4:auto x = type_t{...}", r"auto (\w+) = type_t\{([^}]*)\};", r"type_t \1(\2);")
         short = name.split("::")[1].split("(")[0]
         if name in l12:
             X.rename_self_calls(sl, short, pattern=r"\.%s\(" % re.escape(short), minimum=1)
